@@ -779,18 +779,40 @@ class Gen:
             if c.name in names:
                 return None
             names.append(c.name)
+        # sometimes one top column is an unnamed computed expression: the result column then takes the
+        # name of the bottom relation's column at that position (if that one has a name)
+        unnamed_at = None
+        if r.random() < 0.25:
+            unnamed_at = r.randrange(len(picked))
+            c = picked[unnamed_at]
+            if c.ty in ("int", "float"):
+                sel["items"][unnamed_at] = [None, ["bin", "+", self.ref(sc, c), ["lit", 1]]]
+            elif c.ty == "text":
+                sel["items"][unnamed_at] = [None, ["bin", "??", self.ref(sc, c), ["lit", "q"]]]
+            else:
+                unnamed_at = None
         # bottom: same arity and types from another source
         src, cols, wild = self.table_source()
         alias = self.new_alias()
         bsc = Scope([c.clone(qual=alias) for c in cols], 1 if wild else 0)
         bitems = []
-        for c in picked:
+        out_names = []
+        for i, c in enumerate(picked):
             cands = bsc.referable(c.ty)
             if not cands:
                 return None
-            bitems.append([None, self.ref(bsc, r.choice(cands))] if r.random() < 0.6 else [self.new_name(), self.expr(bsc, c.ty, 1)])
+            if r.random() < 0.6:
+                bc = r.choice(cands)
+                bitems.append([None, self.ref(bsc, bc)])
+                bname = bc.name
+            else:
+                bname = self.new_name()
+                bitems.append([bname, self.expr(bsc, c.ty, 1)])
+            out_names.append(bname if i == unnamed_at else c.name)
+        if len(set(out_names)) != len(out_names):
+            return None
         bottom = [{"t": "from", "src": src, "alias": alias}, {"t": "select", "items": bitems}]
-        nsc = Scope([GCol(None, c.name, c.ty) for c in picked], 0)
+        nsc = Scope([GCol(None, n, c.ty) for n, c in zip(out_names, picked)], 0)
         return [sel, {"t": "append", "src": {"k": "pipe", "pipe": bottom}}], nsc
 
     # -- pipelines
